@@ -212,6 +212,13 @@ func (c *Conn) waitCloseHandshake() error {
 		return c.readCloseFrameErr
 	}
 
+	// The payload is discarded by reading from the connection directly
+	// and so the timeout must be armed for it.
+	err = c.armReadTimeout(ctx)
+	if err != nil {
+		return err
+	}
+
 	for i := int64(0); i < c.msgReader.payloadLength; i++ {
 		_, err := c.br.ReadByte()
 		if err != nil {
@@ -225,12 +232,26 @@ func (c *Conn) waitCloseHandshake() error {
 			return err
 		}
 
+		err = c.armReadTimeout(ctx)
+		if err != nil {
+			return err
+		}
+
 		for i := int64(0); i < h.payloadLength; i++ {
 			_, err := c.br.ReadByte()
 			if err != nil {
 				return err
 			}
 		}
+	}
+}
+
+func (c *Conn) armReadTimeout(ctx context.Context) error {
+	select {
+	case <-c.closed:
+		return net.ErrClosed
+	case c.readTimeout <- ctx:
+		return nil
 	}
 }
 
